@@ -12,17 +12,78 @@ def repo_hook_commits():
         return []
 
 CHECKS = {
+ "C01": dict(engine="E2 scancheck (pubcheck)", cat="exploration", ref="§3.3 E2, §5 C01",
+   technique="bounded-exhaustive enumeration of (pattern set, input) pairs, real iterator in lockstep with a reference scanner (AST interpreter over position sets); the all-strings part is delegated to C02/C03",
+   text="Every (configuration, input) pair of stated finite families (Sets(k1;k2;k3) x token-type variants, repetition shapes, class pairs, add_patterns) is scanned to exhaustion by the real iterator and compared token by token with the longest-match / first-pattern / skip-one-character rule computed by an independent interpreter. Complete enumeration, simplest first; no sampling.",
+   note="Trusted: regex-syntax's parser; named class atoms as opaque tables tabulated through the public API. Inputs are short (<= 5 characters): the quantifier over arbitrary strings is covered by the product exploration of C02/C03, this check covers find_from's bookkeeping and the skip logic."),
  "C02": dict(engine="E1 langcheck (hookcheck)", cat="model_checking", ref="§3.3 E1, §5 C02",
    technique="explicit-state product exploration (compiled automaton dumped from the real Scanner x Glushkov reference automaton) closed over the finite block alphabet of all 1,112,064 scalars; BFS witnesses replayed against the real scanner",
-   text="Per pattern set the verdict is for ALL strings: the product of the real compiled automaton and an independently constructed position automaton is closed over the alphabet partition, so a wrong merge or missing edge needing a long witness is found as surely as a short one. The quantifier over pattern sets is bounded-exhaustive (Sets(k1;k2;k3), lookahead automata, a scale family, the repository corpora).",
+   text="Per pattern set the verdict is for ALL strings: the product of the real compiled automaton and an independently constructed position automaton is closed over the alphabet partition, so a wrong merge or missing edge needing a long witness is found as surely as a short one. The quantifier over pattern sets is bounded-exhaustive (Sets(k1;k2;k3), lookahead automata, repetition shapes, class pairs, a scale family with >256/>512 patterns, classes, states and groups, the repository corpora).",
    note="Trusted: regex-syntax's parser (shared with scnr), the read-only dump hook (validated per run by scanning every BFS witness with the real scanner), named class atoms as opaque tables tabulated through the public API (their algebra is C08's business)."),
  "C03": dict(engine="E1 langcheck (hookcheck)", cat="model_checking", ref="§3.3 E1, §5 C03",
    technique="explicit-state product exploration of every recorded (input, output) pair of Minimizer::minimize over the block alphabet, all strings per pair",
    text="Every automaton that reaches the minimizer while the families of C02 are built is compared with its minimized form by closing the product of the two over the alphabet partition: equal accepted token-type sets in every reachable pair of state sets, start state preserved, no growth. No reference regex is involved, so the verdict is independent of the NFA construction.",
    note="Trusted: the recorder hook (wraps the unchanged minimizer body); class predicates evaluated through the hook on block representatives."),
+ "C04": dict(engine="E2 scancheck (pubcheck)", cat="exploration", ref="§3.3 E2, §4.3, §5 C04",
+   technique="bounded-exhaustive lockstep of the real iterator against the candidate rule (pattern matches, lookahead holds at the end) on every (mode, input, start offset) of lookahead families",
+   text="All ordered modes of 1..2 (thorough 3) patterns with no/positive/negative lookaheads from small menus, ASCII and multi-byte, are scanned on every input up to length 4..5 from every start offset (with_offset). Oracle: every reported token is a candidate (its text is matched by the pattern of the reported type and that pattern's lookahead holds at its end) and a token is reported wherever a candidate exists at the scan position.",
+   note="Lookahead patterns are non-nullable (as the property states). A known finding (two patterns of one mode sharing a token type with different lookaheads) is matched by its shape key and reported as KNOWN-FINDING."),
+ "C05": dict(engine="E2 scancheck (pubcheck)", cat="exploration", ref="§3.3 E2, §4.3, §5 C05",
+   technique="same lockstep as C04; oracle = set of admissible (type, length) results under the trailing-context rule (max extent, then first pattern); panics caught",
+   text="On the families of C04 the reported (type, span) must be an admissible choice: maximal own length plus longest positive lookahead, ties to the pattern listed first, type and span from one candidate; no scan may panic.",
+   note="When one pattern has several lengths of equal extent the statement does not choose; any of them is accepted."),
+ "C06": dict(engine="E3 histcheck (hookcheck)", cat="model_checking", ref="§3.3 E3, §4.4, §5 C06",
+   technique="explicit-state BFS to closure over call histories (next / peek_n / set_mode) of the real iterator on every mode graph of a bounded family, in lockstep with a mode model; hybrid with a stateless prefix",
+   text="For every (mode graph, input) pair the space of call histories is searched to closure: each transition calls the real method on a fresh replay of the shortest history, states are deduplicated by the snapshot of the real iterator fields plus the model state, current_mode() and every returned token are compared with the configured transitions. Histories up to a stated length are additionally expanded without deduplication. Plus scripted checks (Scanner::set_mode before find_iter, reuse after a partial iteration, mode_name).",
+   note="Trusted: the snapshot hook lists every mutable field (the stateless prefix covers fields it might miss). set_mode to a missing mode is unspecified and never generated."),
+ "C07": dict(engine="E2 scancheck + stateless history enumeration (pubcheck)", cat="exploration", ref="§5 C07",
+   technique="bounded-exhaustive enumeration: safety invariants on every scan of the C04/C05 families, on a nullable-pattern/nullable-lookahead/zero-pattern family over 1-4 byte characters from every offset, and along every call history up to depth D (next / peek_n / advance_to / set_offset / set_mode) followed by a drain",
+   text="Non-empty in-bounds spans on character boundaries, monotone starts, at most one token per character since the last reset, sticky None, no panic (debug assertions on) - evaluated on every element of the stated finite spaces.",
+   note="After a backward set_offset the monotonicity and token budget restart at the reset position."),
+ "C08": dict(engine="E4 enumcheck (pubcheck)", cat="exploration", ref="§4.2, §5 C08",
+   technique="exhaustive enumeration of all 1,112,064 scalar values per class expression of a bounded grammar, through the public API, against the set algebra over opaque atom tables",
+   text="Each class expression (unions, negations at every level, &&, --, ~~, nested brackets, every named class scnr documents in several contexts, all classes of the corpora, pairs of classes in one scanner) is compiled as a scanner and decided on every scalar value; the oracle is the boolean algebra of its items computed word-wise and cross-checked pointwise.",
+   note="An unescaped `.` as a class item is the dot set (intended behaviour, README relies on it). Named atoms are opaque (their set is what the atom denotes alone); only the ASCII anchors of \\d \\s \\w from the statement are asserted."),
+ "C09": dict(engine="E3 histcheck (hookcheck)", cat="model_checking", ref="§3.3 E3, §4.4, §5 C09",
+   technique="explicit-state BFS to closure over histories (next / set_offset to scanned offsets / set_mode / peek / advance_to / exhaustion) of WithPositions<FindMatches> and bare FindMatches, true line/column oracle on every state",
+   text="In every reachable state position(o) is compared for every boundary inside the contiguously scanned prefix, and every delivered MatchExt start/end position is compared with the true line/column (line-break leniency for end positions as the statement allows).",
+   note="Only offsets inside the contiguously scanned prefix are specified; forward jumps over unscanned text leave a gap that is not compared."),
+ "C10": dict(engine="E3 histcheck (hookcheck)", cat="model_checking", ref="§3.3 E3, §4.4, §5 C10",
+   technique="explicit-state BFS to closure over histories with set_offset(every boundary, beyond the end), with peek_n and advance_to(peeked end), against a model whose scan from (offset, mode) does not depend on the past",
+   text="After any history followed by set_offset(o) the tokens must be those of a scan from o in the current mode with absolute spans; advance_to(end of a just peeked match) must make the next token the following one. Mode graphs, lookahead modes and multi-byte/newline configurations.",
+   note="advance_to is only driven with the end of a match peeked in the current state; offsets inside a character are never generated."),
+ "C11": dict(engine="E3 histcheck (hookcheck)", cat="model_checking", ref="§3.3 E3, §4.4, §5 C11",
+   technique="explicit-state BFS to closure with peek_n(0,1,2,3,|x|+1) enabled in every state; peek result compared with the model's next-n tokens and classification; purity by snapshot comparison",
+   text="peek_n must return what the next calls of next() would return, stop only at the end or after a mode-switching token, classify the outcome, and leave the iterator snapshot unchanged; checked at every point of every history of the bounded families (mode graphs, gaps, multi-byte, lookahead modes with resets).",
+   note="Corner left open by the statement: exactly n matches found and the n-th triggers a switch - both Matches and MatchesReachedModeSwitch are accepted."),
+ "C12": dict(engine="E3m (pubcheck)", cat="model_checking", ref="§5 C12",
+   technique="exhaustive enumeration of all interleavings of two per-iterator scripts plus one scanner-level event on one Scanner and on two scanners sharing a cached compilation; differential oracle (same script alone on a fresh uncached scanner); peek-transparency differential on one iterator",
+   text="Every schedule (script pair x interleaving x event placement) is executed on the real objects and each iterator's observations must equal those of its script run alone; on a single iterator every script with peeks must observe what the same script without its peeks observes.",
+   note="Single-threaded interleaving (concurrency is C14). No reference semantics involved."),
+ "C13": dict(engine="E5 cachecheck (hookcheck)", cat="model_checking", ref="§5 C13",
+   technique="explicit-state BFS over cache states (sets of built members of a family of equal/near-identical/unrelated/failing configurations); every build() compared with build_uncached() by dump, mode names and token streams",
+   text="From every cache state (reached by clear + builds) every member is built through the cache and compared with its uncached build; failing builds must return Err and leave later builds unaffected.",
+   note="The cache_clear/cache_keys hooks only make cache states reachable and observable in one process. Single-threaded."),
+ "C14": dict(engine="E6 loomcheck", cat="model_checking", ref="§3.2 H5, §5 C14",
+   technique="loom (DPOR, all schedules, no preemption bound) over the real build()/find_iter/peek_n code through a std-shadowing facade; Send+Sync by compile probe",
+   text="For each of ~140 small thread harness bodies (2 threads x 1-2 ops, 3 threads x 1 op: builds of equal/near-identical/failing configurations, scans and peeks on a shared Arc<Scanner>) loom explores every schedule; every thread must observe the sequential results, the cache must end with one entry per built configuration, no deadlock or panic. `Scanner: Send + Sync` is a type-system fact decided by a compile probe.",
+   note="Scheduling points exist only where the code synchronises through std::sync / std::thread (routed to loom); std's Arc reference counts are not scheduling points; unsynchronised accesses through unsafe are invisible to loom."),
+ "C15": dict(engine="E4 enumcheck (pubcheck)", cat="exploration", ref="§5 C15",
+   technique="exhaustive enumeration of every token string up to length L over a 30-token regex alphabet, structured planting of constructs in every context x slot, long multi-byte patterns, and the same through the cache; classification oracle from the AST",
+   text="Every element of the stated finite spaces is handed to build()/build_uncached() inside catch_unwind with debug assertions on: syntax errors and unsupported constructs anywhere must give Err, the supported fragment must build, nothing may panic.",
+   note="A named Unicode class is unsupported iff it does not build when used alone (fixed anchors from the statement are asserted). Repetition counts stay small."),
+ "C16": dict(engine="E4 enumcheck (pubcheck)", cat="exploration", ref="§5 C16",
+   technique="exhaustive enumeration of a finite product of special strings, boundary numbers, lookahead options and transition lists; three serialization routes read back; independent hand-written JSON in the README layout; behaviour of original vs read-back",
+   text="Every configuration of the product round-trips by ==, re-serializes identically, equals an independently written JSON in the README layout in both directions and, if it builds, behaves like its read-back twin; the README JSON block is extracted and exercised; Match/MatchExt/Span/Position round-trip on boundary numbers.",
+   note="Configurations are built through the public constructors with sorted transition lists."),
+ "C18": dict(engine="E4 enumcheck (hookcheck)", cat="exploration", ref="§5 C18",
+   technique="exhaustive enumeration over configuration families; every generated file parsed by a strict DOT-subset parser and compared with the automaton dump; unwritable targets",
+   text="File set (one per mode, named from prefix and mode name, incl. dots/spaces/non-ASCII), node set, accepting labels, edge multiset with class ids, one cluster per lookahead with polarity and automaton are compared with the dump; missing folder / regular file / missing parent must give Err, not a panic.",
+   note="No Graphviz binary in the sandbox: the parser implements DOT's quoting rules. Class text in edge labels is not compared, only the (C#id) suffix. Read-only folders cannot be produced when running as root (reported as skipped)."),
 }
 
 NOT_YET = {
+ "C17": "check being built (instances beyond 2^16 states take minutes to compile); not claimed until committed",
 }
 
 def main():
@@ -54,6 +115,13 @@ def main():
         },
         "engines": [
             {"name": "E1 langcheck", "path": "harness/hookcheck/src/e1.rs", "serves_properties": ["C02", "C03", "C17"], "kind_free_text": "explicit-state product exploration over the block alphabet"},
+            {"name": "E2 scancheck", "path": "harness/pubcheck/src/e2.rs", "serves_properties": ["C01", "C04", "C05", "C07"], "kind_free_text": "bounded-exhaustive lockstep of the real iterator against the reference scanner"},
+            {"name": "E3 histcheck", "path": "harness/hookcheck/src/e3.rs", "serves_properties": ["C06", "C09", "C10", "C11"], "kind_free_text": "explicit-state BFS over call histories of the real iterator, lockstep with the iterator model"},
+            {"name": "E3m / stateless histories", "path": "harness/pubcheck/src/c12.rs", "serves_properties": ["C12", "C07"], "kind_free_text": "all interleavings / all histories up to depth D through the public API"},
+            {"name": "E4 enumcheck", "path": "harness/pubcheck/src", "serves_properties": ["C08", "C15", "C16", "C18"], "kind_free_text": "plain exhaustive enumerators"},
+            {"name": "E5 cachecheck", "path": "harness/hookcheck/src/c13.rs", "serves_properties": ["C13"], "kind_free_text": "BFS over cache states"},
+            {"name": "E6 loomcheck", "path": "harness/loomcheck/src/main.rs", "serves_properties": ["C14"], "kind_free_text": "loom DPOR over the real build()/find_iter code"},
+            {"name": "refsem", "path": "harness/refsem/src", "serves_properties": [], "kind_free_text": "reference semantics (AST interpreter, Glushkov automaton, token rule, iterator model); never calls scnr"},
         ],
         "checks": checks,
         "not_applicable": na,
